@@ -260,11 +260,15 @@ impl<'a> Model<'a> {
             if self.files.contains(&c) && c != file {
                 let own: BTreeSet<usize> = self.defs_in(&c, name).into_iter().filter(|i| Some(*i) != exclude).collect();
                 let imp: BTreeSet<usize> = self.imports_of(&c).get(name).cloned().unwrap_or_default().into_iter().filter(|i| Some(*i) != exclude).collect();
-                if exclude.is_some() && own.is_empty() && imp.is_empty() {
+                // the requesting fixture itself is reachable through this conftest's imports: definitions of the
+                // name that the import chain shadows with it are the open corner described above
+                if let Some(ex) = exclude {
                     let mut u = BTreeMap::new();
                     self.reachable_union(&c, &mut BTreeSet::new(), &mut u, true);
-                    if self.imports_of(&c).contains_key(name) {
-                        optional.extend(u.get(name).cloned().unwrap_or_default().into_iter().filter(|i| Some(*i) != exclude));
+                    if let Some(s) = u.get(name) {
+                        if s.contains(&ex) {
+                            optional.extend(s.iter().copied().filter(|i| *i != ex));
+                        }
                     }
                 }
                 if !own.is_empty() || !imp.is_empty() {
@@ -283,6 +287,15 @@ impl<'a> Model<'a> {
             } else if c == file {
                 // the using file is this conftest itself: its imports count as its own level
                 let imp: BTreeSet<usize> = self.imports_of(&c).get(name).cloned().unwrap_or_default().into_iter().filter(|i| Some(*i) != exclude).collect();
+                if let Some(ex) = exclude {
+                    let mut u = BTreeMap::new();
+                    self.reachable_union(&c, &mut BTreeSet::new(), &mut u, true);
+                    if let Some(s) = u.get(name) {
+                        if s.contains(&ex) {
+                            optional.extend(s.iter().copied().filter(|i| *i != ex));
+                        }
+                    }
+                }
                 if !imp.is_empty() {
                     let mut accept = optional.clone();
                     accept.extend(imp);
